@@ -385,6 +385,66 @@ theorem fraunhofer_inverse_fft (gy gx : Cfg ℝ ℂ) (oky : AxisOK gy) (okx : Ax
   · rw [hwl]; exact hpos.ne'
   · exact fft2_inverse gy gx oky okx hemu hfy hfx
 
+/-- The transform *defined* as the weighted Fourier sum (`NaiveFourierTransform`; C01 shows that
+`MatrixFourierTransform` and `ZoomFastFourierTransform` compute the same numbers). -/
+noncomputable def naiveTransform (pupil : Grid ι d) (uv : Grid κ d) : FourierTransform ι κ :=
+  { fwd := { toFun := fun E k => fourierSum pupil (uv.pts k) E
+             map_add' := by
+               intro x y; funext k
+               simp only [fourierSum, Pi.add_apply, ← Finset.sum_add_distrib]
+               apply Finset.sum_congr rfl; intro j _; ring
+             map_smul' := by
+               intro a x; funext k
+               simp only [fourierSum, Pi.smul_apply, smul_eq_mul, RingHom.id_apply, Finset.mul_sum]
+               apply Finset.sum_congr rfl; intro j _; ring }
+    bwd := 0 }
+
+/-- What `make_fourier_transform` does for a lens: the FFT (model) at the wavelength for which the focal grid
+is FFT-native, the defining sum at every other wavelength. -/
+noncomputable def autoPropagator (gy gx : Cfg ℝ ℂ) (oky : AxisOK gy) (okx : AxisOK gx) (hemu : gy.emu = gx.emu)
+    (f lam0 : ℝ) : Propagator (Fin gy.N × Fin gx.N) (Fin gy.Mo × Fin gx.Mo) 2 := by
+  classical
+  exact
+  { pupil := pupilGrid2 gy gx
+    focal := (uvGrid2 gy gx).scaled (uvScaleR lam0 f)⁻¹
+    focalLength := fun _ => f
+    ft := fun lam => if lam = lam0 then fftTransform2 gy gx oky okx hemu
+      else naiveTransform (pupilGrid2 gy gx) (((uvGrid2 gy gx).scaled (uvScaleR lam0 f)⁻¹).scaled (uvScaleR lam f)) }
+
+/-- **`Propagator.TransformsCorrect` discharged**: every wavelength, FFT branch by C01. -/
+theorem autoPropagator_transformsCorrect (gy gx : Cfg ℝ ℂ) (oky : AxisOK gy) (okx : AxisOK gx)
+    (hemu : gy.emu = gx.emu) (f lam0 : ℝ) (hpos : 0 < lam0 * f) :
+    (autoPropagator gy gx oky okx hemu f lam0).TransformsCorrect := by
+  intro lam
+  by_cases h : lam = lam0
+  · subst h
+    have hu : (autoPropagator gy gx oky okx hemu f lam).uvGrid lam = uvGrid2 gy gx :=
+      fftPropagator_uvGrid gy gx oky okx hemu f lam hpos
+    rw [hu]
+    have hft : (autoPropagator gy gx oky okx hemu f lam).ft lam = fftTransform2 gy gx oky okx hemu := by
+      unfold autoPropagator; simp
+    rw [hft]
+    exact fft2_evaluates gy gx oky okx hemu
+  · have hft : (autoPropagator gy gx oky okx hemu f lam0).ft lam
+        = naiveTransform (pupilGrid2 gy gx) (((uvGrid2 gy gx).scaled (uvScaleR lam0 f)⁻¹).scaled (uvScaleR lam f)) := by
+      unfold autoPropagator; simp [h]
+    rw [hft]
+    intro E k
+    rfl
+
+/-- **`fraunhofer_eq_integral` with no hypothesis left**, every wavelength, every wavefront. -/
+theorem fraunhofer_eq_integral_auto (gy gx : Cfg ℝ ℂ) (oky : AxisOK gy) (okx : AxisOK gx) (hemu : gy.emu = gx.emu)
+    (f lam0 : ℝ) (hpos : 0 < lam0 * f) (wf : Wavefront (Fin gy.N × Fin gx.N) τ) (t : τ)
+    (k : Fin gy.Mo × Fin gx.Mo) :
+    ((autoPropagator gy gx oky okx hemu f lam0).forward wf).field t k
+      = 1 / (I * (wf.wavelength : ℂ) * (f : ℂ))
+        * ∑ j, wf.field t j * ((gy.δ * gx.δ : ℝ) : ℂ)
+            * cexp (-(2 * (Real.pi : ℂ) * I
+                * ((dot ((autoPropagator gy gx oky okx hemu f lam0).focal.pts k) ((pupilGrid2 gy gx).pts j) : ℝ) : ℂ))
+                / ((wf.wavelength : ℂ) * (f : ℂ))) :=
+  fraunhofer_eq_integral (autoPropagator gy gx oky okx hemu f lam0)
+    (autoPropagator_transformsCorrect gy gx oky okx hemu f lam0 hpos) wf t k
+
 /-- Non-vacuity: a consistent full pair exists (`N = 2`, `M = Mo = 4`, `δ = 1/2`, `dT = 1/2` on both axes). -/
 example : ∃ g : Cfg ℝ ℂ, AxisOK g ∧ g.Mo = g.M :=
   ⟨{ N := 2, M := 4, Mo := 4, δ := 1 / 2, z := 0, dT := 1 / 2, s := 0, w := ((1 / 2 : ℝ) : ℂ), emu := false },
